@@ -394,6 +394,8 @@ class FaultRun(object):
         if not fired:
             self.probe('fault_did_not_fire')
             return
+        self.stats.setdefault('fired_points', []).append(
+            '/'.join('%d:%s' % (k_, kd_) for (k_, kd_) in t.fired))
         raw = dump.raw(w)
         nat = dump.natural(w, raw)
         is_pre, is_twin = self.classify(resp.status, raw, nat)
@@ -557,6 +559,9 @@ class FaultRun(object):
         t = self._do(sim, R, threaded=True)
         for (_, kd) in t.fired:
             self.stats['faults'][kd] = self.stats['faults'].get(kd, 0) + 1
+        if t.state == 'crashed':
+            self.stats.setdefault('fired_points', []).append(
+                '/'.join('%d:%s' % (k_, kd_) for (k_, kd_) in t.fired))
         if t.state != 'crashed':
             self.probe('crash_did_not_fire')
             return
